@@ -11,7 +11,7 @@ from ..runner import Lost
 QUICK_N = int(os.environ.get("PVMON_QUICK_N", "2500"))
 THOROUGH_N = int(os.environ.get("PVMON_THOROUGH_N", "40000"))
 
-WORKER_CHOICES = [1, 2, 3, 4, 8, 16]
+WORKER_CHOICES = list(range(1, 17))
 
 
 def tier_n(tier, quick=None, thorough=None):
@@ -77,7 +77,7 @@ def choose_items(prop, tier, seed, n, select=None, mode_fraction=0.0, delay=Fals
                 out.append(i)
                 continue
             mode = rng.choice(["thread", "thread", "process"])
-            it = {"i": i, "mode": mode, "workers": rng.choice(WORKER_CHOICES if mode == "thread" else [1, 2, 3, 4])}
+            it = {"i": i, "mode": mode, "workers": rng.choice(WORKER_CHOICES if mode == "thread" else [1, 2, 3, 4, 5, 6])}
             if delay:
                 it["delay"] = {"salt": f"{seed}-{i}", "max_ms": 2.0, "p": 0.3}
             out.append(it)
